@@ -1,12 +1,166 @@
-//! Miri leg of C14 (thorough tier only). Filled in by a later step.
+//! Miri leg of C14 (thorough tier only): the small fixed scenarios of
+//! /verif/miri-c14 under Miri's seeded scheduler. Where the native engine
+//! interleaves only at `verif_point!` sites, Miri preempts at basic-block
+//! granularity, owns every std::sync primitive and atomic, and reports data
+//! races by happens-before analysis. One (scenario, seed) is one exactly
+//! repeatable execution.
+
+use std::process::Command;
+use std::time::Instant;
 
 use serde_json::{json, Value};
 
-pub fn miri_leg(_seed: u64) -> (Value, Option<(String, String)>) {
-    (json!({"ran": false, "reason": "not built yet"}), None)
+use crate::report;
+
+const MIRI_DIR: &str = "/verif/miri-c14";
+const BASE_FLAGS: &str = "-Zmiri-preemption-rate=0.05 -Zmiri-disable-stacked-borrows -Zmiri-disable-validation";
+pub const N_SCENARIOS: u64 = 8;
+
+fn run_miri(scenario: u64, seed_flag: &str, timeout_s: u64) -> Result<(bool, String), String> {
+    let flags = format!("{} {}", seed_flag, BASE_FLAGS);
+    let out = Command::new("timeout")
+        .arg(timeout_s.to_string())
+        .args(["cargo", "+nightly", "miri", "run", "--offline", "--target-dir", "/verif/target/miri", "--"])
+        .arg(scenario.to_string())
+        .current_dir(MIRI_DIR)
+        .env("MIRIFLAGS", flags)
+        .env("CARGO_NET_OFFLINE", "true")
+        .env("CARGO_TERM_COLOR", "never")
+        .output()
+        .map_err(|e| format!("cannot start cargo miri: {}", e))?;
+    let text = format!("{}\n{}", String::from_utf8_lossy(&out.stdout), String::from_utf8_lossy(&out.stderr));
+    if out.status.code() == Some(124) {
+        return Err(format!("miri timed out after {} s", timeout_s));
+    }
+    Ok((out.status.success(), text))
 }
 
-pub fn miri_replay(_v: &Value, _path: &str) -> i32 {
-    eprintln!("harness error: miri replay not available");
-    2
+fn failing_seed(text: &str) -> Option<u64> {
+    for l in text.lines() {
+        let low = l.to_ascii_lowercase();
+        if low.contains("failing seed") {
+            if let Some(n) = l.split(|c: char| !c.is_ascii_digit()).filter(|s| !s.is_empty()).last() {
+                return n.parse().ok();
+            }
+        }
+    }
+    None
+}
+
+fn excerpt(text: &str) -> String {
+    let keep: Vec<&str> = text
+        .lines()
+        .filter(|l| {
+            let l = l.trim_start();
+            l.starts_with("error") || l.contains("C14:") || l.contains("Data race") || l.contains("panicked") || l.to_ascii_lowercase().contains("failing seed") || l.contains("-->")
+        })
+        .take(30)
+        .collect();
+    keep.join("\n")
+}
+
+/// Is this a failure of the harness/toolchain rather than of the scenario?
+fn toolchain_problem(text: &str) -> bool {
+    text.contains("could not compile") || text.contains("no such command") || text.contains("is not installed") || text.contains("failed to load source") || text.contains("error: no matching package")
+}
+
+/// Returns (evidence fragment, violation = (detail, replay path)).
+pub fn miri_leg(seed: u64) -> (Value, Option<(String, String)>) {
+    let t0 = Instant::now();
+    let seeds_per = std::env::var("VERIF_MIRI_SEEDS").ok().and_then(|s| s.parse().ok()).unwrap_or(8u64);
+    let base = (seed % 100_000) * 1000;
+    let mut runs = 0u64;
+    let mut per_scenario = Vec::new();
+    for sc in 0..N_SCENARIOS {
+        let a = base + sc * seeds_per;
+        let b = a + seeds_per;
+        let flag = format!("-Zmiri-many-seeds={}..{}", a, b);
+        match run_miri(sc, &flag, 1500) {
+            Err(e) => {
+                return (json!({"ran": false, "reason": e, "wall_s": t0.elapsed().as_secs_f64()}), None);
+            }
+            Ok((true, text)) => {
+                let oks = text.matches("miri-c14 scenario").count() as u64;
+                runs += oks;
+                per_scenario.push(json!({"scenario": sc, "seeds": [a, b - 1], "executions_ok": oks}));
+            }
+            Ok((false, text)) => {
+                if toolchain_problem(&text) {
+                    return (
+                        json!({"ran": false, "reason": format!("miri toolchain problem: {}", excerpt(&text)), "wall_s": t0.elapsed().as_secs_f64()}),
+                        None,
+                    );
+                }
+                let fs = failing_seed(&text);
+                let detail = format!(
+                    "Miri leg: scenario {} failed under seed {} (range {}..{}):\n{}",
+                    sc,
+                    fs.map(|s| s.to_string()).unwrap_or_else(|| "?".into()),
+                    a,
+                    b,
+                    excerpt(&text)
+                );
+                let replay = json!({
+                    "property": "C14",
+                    "engine": "miri-c14",
+                    "verif_seed": seed,
+                    "scenario": sc,
+                    "miri_seed": fs,
+                    "seed_range": [a, b],
+                    "miri_flags": BASE_FLAGS,
+                    "violation": {"invariant": "MIRI", "detail": detail},
+                    "replay_cmd": "./check C14 --replay <this file>",
+                });
+                let path = report::write_replay("C14", &format!("MIRI-scenario{}", sc), &replay)
+                    .map(|p| p.display().to_string())
+                    .unwrap_or_else(|_| "<unwritable>".into());
+                return (
+                    json!({"ran": true, "executions": runs, "failed_scenario": sc, "failing_seed": fs, "wall_s": t0.elapsed().as_secs_f64()}),
+                    Some((detail, path)),
+                );
+            }
+        }
+    }
+    (
+        json!({
+            "ran": true,
+            "executions": runs,
+            "scenarios": per_scenario,
+            "flags": BASE_FLAGS,
+            "what": "4 caller threads (2 building through shared and fresh builders, 1 rendering a shared Arc<QRCode>, optionally 1 dying mid-build) compared with a sequential reference; data-race detection on",
+            "wall_s": (t0.elapsed().as_secs_f64() * 10.0).round() / 10.0,
+        }),
+        None,
+    )
+}
+
+pub fn miri_replay(v: &Value, path: &str) -> i32 {
+    let sc = v["scenario"].as_u64().unwrap_or(0);
+    let flag = match v["miri_seed"].as_u64() {
+        Some(s) => format!("-Zmiri-seed={}", s),
+        None => {
+            let a = v["seed_range"][0].as_u64().unwrap_or(0);
+            let b = v["seed_range"][1].as_u64().unwrap_or(a + 1);
+            format!("-Zmiri-many-seeds={}..{}", a, b)
+        }
+    };
+    match run_miri(sc, &flag, 1500) {
+        Err(e) => {
+            eprintln!("harness error: {}", e);
+            2
+        }
+        Ok((true, _)) => {
+            println!("replay did not produce a violation on this tree");
+            0
+        }
+        Ok((false, text)) => {
+            if toolchain_problem(&text) {
+                eprintln!("harness error: miri toolchain problem: {}", excerpt(&text));
+                return 2;
+            }
+            println!("replayed: Miri leg scenario {} fails:\n{}", sc, excerpt(&text));
+            println!("VIOLATION property=C14 replay={}", path);
+            1
+        }
+    }
 }
